@@ -444,7 +444,7 @@ func runC11(rc *RunCtx) {
 						}
 						// malformed new-holder strings (owner submits)
 						if si%9 == 0 {
-							for bi, bad := range append(c11BadAddrs, strings.ToUpper(Acct(1)), Bech(Structured32(3))) {
+							for bi, bad := range append(c11BadAddrs, strings.ToUpper(Acct(1)), Bech(Structured32(3)), Bech([]byte{}), Bech(make([]byte, 256)), Bech(make([]byte, 255)), " "+Acct(1), Acct(1)+" ") {
 								step(&ct.MsgUpdateAttesterManager{From: Acct(o), NewAttesterManager: bad}, fmt.Sprintf("bad-address-%d", bi))
 								step(&ct.MsgUpdatePauser{From: Acct(o), NewPauser: bad}, fmt.Sprintf("bad-address-%d", bi))
 								step(&ct.MsgUpdateTokenController{From: Acct(o), NewTokenController: bad}, fmt.Sprintf("bad-address-%d", bi))
@@ -487,7 +487,7 @@ func runC11(rc *RunCtx) {
 
 // ---------------------------------------------------------------- C12 matrix
 
-var c12Flows = []string{"send", "send-with-caller", "deposit", "deposit-with-caller", "replace", "replace-deposit", "receive-other", "receive-mint", "receive-other-long", "send-long"}
+var c12Flows = []string{"send", "send-with-caller", "deposit", "deposit-with-caller", "replace", "replace-deposit", "receive-other", "receive-mint", "receive-other-long", "send-long", "receive-near-module"}
 
 func runC12(rc *RunCtx) {
 	nonce := uint64(50000)
@@ -541,6 +541,12 @@ func runC12(rc *RunCtx) {
 			case "receive-other":
 				nonce++
 				in := &InMsg{Version: 0, Src: 1, Dst: 4, Nonce: nonce, Sender: Structured32(1), Recipient: Structured32(2), Caller: make([]byte, 32), Body: []byte("hi")}
+				raw := in.Bytes()
+				m = &ct.MsgReceiveMessage{From: Acct(UserIx), Message: raw, Attestation: e.Attest(raw, 0)}
+			case "receive-near-module":
+				nonce++
+				in := StdInbound(nonce, 1, big.NewInt(9))
+				in.Recipient = NearModuleRecipient(byte(nonce))
 				raw := in.Bytes()
 				m = &ct.MsgReceiveMessage{From: Acct(UserIx), Message: raw, Attestation: e.Attest(raw, 0)}
 			case "receive-other-long":
@@ -734,6 +740,9 @@ func runC13(rc *RunCtx) {
 				step(&ct.MsgUpdateSignatureThreshold{From: am, Amount: uint32(nt)}, "set-threshold")
 			}
 			step(&ct.MsgUpdateSignatureThreshold{From: am, Amount: 0xffffffff}, "set-threshold")
+			for _, w := range WrapThresholds {
+				step(&ct.MsgUpdateSignatureThreshold{From: am, Amount: w}, "set-threshold-wrap")
+			}
 			// by a non-manager
 			step(&ct.MsgDisableAttester{From: Acct(OwnerIx), Attester: AttesterPool[keys[0]].Spell(keys[0] % 4)}, "disable-by-non-manager")
 			step(&ct.MsgUpdateSignatureThreshold{From: Acct(OwnerIx), Amount: 1}, "threshold-by-non-manager")
